@@ -204,7 +204,8 @@ impl World {
 
     /// execute one op on the real code; returns the observed output
     pub fn exec(&mut self, op: &str) -> String {
-        let t: Vec<&str> = op.split_whitespace().collect();
+        // a trailing `@L` names the link on whose behalf a signal is sent (for the monitors only)
+        let t: Vec<&str> = op.split_whitespace().filter(|x| !x.starts_with('@')).collect();
         if t.is_empty() {
             return "bad".into();
         }
